@@ -107,7 +107,8 @@ type Function struct {
 	Body       []Token // tokens between the outer braces, or of the => expression
 	Line       int
 
-	match []int // bracket partners inside Body, computed lazily
+	match      []int // bracket partners inside Body, computed lazily
+	unbalanced bool
 }
 
 // Param is one formal parameter.
@@ -672,8 +673,10 @@ func splitCommas(toks []Token, match []int, lo, hi int) [][2]int {
 		if t.Kind == KindPunct {
 			switch t.Text {
 			case "(", "[", "{":
-				i = match[i] + 1
-				continue
+				if match[i] > i { // always, except for hand-built unbalanced bodies
+					i = match[i] + 1
+					continue
+				}
 			case ",":
 				out = append(out, [2]int{segStart, i})
 				segStart = i + 1
@@ -731,7 +734,9 @@ func (p *parser) function(i, hi int, mods map[string]bool) (*Function, int, bool
 			}
 			k++
 		}
-		if k >= hi {
+		if k >= hi || p.juxtaposed(j+1, k) {
+			// no `;`, or a missing `;` made the expression swallow the
+			// following declaration
 			return nil, 0, false
 		}
 		fn.Body = p.toks[j+1 : k]
@@ -744,6 +749,48 @@ func (p *parser) function(i, hi int, mods map[string]bool) (*Function, int, bool
 var notReturnType = map[string]bool{
 	"get": true, "set": true, "operator": true, "factory": true, "external": true, "static": true,
 	"abstract": true, "covariant": true, "late": true, "required": true, "typedef": true,
+}
+
+// operatorWords are the identifiers that may stand next to an operand
+// inside an expression.
+var operatorWords = map[string]bool{
+	"as": true, "is": true, "in": true, "await": true, "throw": true, "const": true, "new": true,
+	"async": true, "sync": true, "switch": true, "when": true, "if": true, "else": true, "for": true,
+}
+
+// juxtaposed reports whether the expression tokens [lo, hi) contain, outside
+// brackets, two adjacent operands (`f(x) int g`), which no Dart expression
+// does: the sign of a missing `;`.
+func (p *parser) juxtaposed(lo, hi int) bool {
+	operandEnd := func(t Token) bool {
+		switch t.Kind {
+		case KindIdent:
+			return !operatorWords[t.Text]
+		case KindString, KindNumber:
+			return true
+		}
+		return t.Text == ")" || t.Text == "]" || t.Text == "}"
+	}
+	operandStart := func(t Token) bool {
+		switch t.Kind {
+		case KindIdent:
+			return !operatorWords[t.Text]
+		case KindNumber:
+			return true
+		}
+		return false // adjacent strings are a concatenation
+	}
+	for i := lo; i < hi; i++ {
+		t := p.toks[i]
+		if t.punct("(") || t.punct("[") || t.punct("{") {
+			i = p.match[i]
+			t = p.toks[i]
+		}
+		if i+1 < hi && operandEnd(t) && operandStart(p.toks[i+1]) {
+			return true
+		}
+	}
+	return false
 }
 
 var paramModifiers = map[string]bool{
